@@ -202,7 +202,7 @@ Proof.
   assert (Hd : is_data t = true) by (destruct Ht as [-> | ->]; reflexivity).
   assert (Hnc : is_control t = false) by (destruct Ht as [-> | ->]; reflexivity).
   rewrite Hnc, Hd. cbn [negb andb].
-  pose proof HP as (ds & (Hh & He & _) & _). rewrite He.
+  pose proof HP as (ds & (Hh & [He _] & _) & _). rewrite He.
   exists s1. split; [reflexivity|]. split; [exact HP|exact Hsc].
 Qed.
 
@@ -439,7 +439,7 @@ Proof.
   set (s0 := cst0 (mws0 ks) cp l).
   assert (HP0 : PClosed c cp s0 []).
   { exists []. split; [|reflexivity]. unfold CInv, s0, cst0. cbn [mw mws0 hdr werrc keys].
-    split; [reflexivity|]. split; [reflexivity|]. split; [exact Hk|].
+    split; [reflexivity|]. split; [split; reflexivity|]. split; [exact Hk|].
     split; [reflexivity|]. split; [constructor|]. split; [constructor|]. exact tail_ok_nil. }
   assert (Hz' : zcond (cp && ewc s0) wch cch) by (cbn [ewc s0 cst0]; rewrite andb_true_r; exact Hz).
   destruct (write_message_ok c cp Hb s0 [] [] [] t p wch cch (or_introl (conj HP0 eq_refl)) Ht Hp eq_refl Hz')
@@ -459,13 +459,13 @@ Lemma send_segment w ds dn t v dn2 :
   CInv c pmd w ds false None dn -> data_type t -> seg_ok pmd (srv c) v dn2 ->
   exists w' ds', conn_write w t [v] = (w', eOK) /\ CInv c pmd w' ds' false None (dn ++ dn2).
 Proof.
-  intros (Hh & He & Hk & Hw & Hok & Hsh & Htl) Ht (ds2 & Hv & Hne & Hok2 & Hsh2 & Htl2).
-  unfold conn_write. rewrite He. cbn [N.eqb negb fold_left].
+  intros (Hh & [He Hbud] & Hk & Hw & Hok & Hsh & Htl) Ht (ds2 & Hv & Hne & Hok2 & Hsh2 & Htl2).
+  unfold conn_write. rewrite He. cbn [N.eqb negb]. rewrite Hbud. cbn [fold_left].
   rewrite Hv, (enc_all_nonnil _ _ Hne).
   assert (Hncl : (t =? opClose) = false) by (destruct Ht as [-> | ->]; reflexivity).
   rewrite Hncl. eexists _, (ds ++ ds2). split; [reflexivity|].
   unfold CInv. cbn [hdr werrc keys set_out].
-  split; [exact Hh|]. split; [exact He|]. split; [exact Hk|].
+  split; [exact Hh|]. split; [exact (conj He Hbud)|]. split; [exact Hk|].
   split; [unfold wire in *; cbn [out set_out rev]; rewrite concat_app, Hw; cbn [concat];
           rewrite app_nil_r; unfold enc_all; rewrite map_app, concat_app; reflexivity|].
   split; [apply Forall_app; auto|]. split; [apply Forall_app; auto|].
@@ -912,7 +912,7 @@ Proof.
   split; [reflexivity|]. split; [reflexivity|]. split; [reflexivity|].
   split; [intros idx cp l; exact I|].
   exists []. split; [|reflexivity]. unfold CInv. cbn [mw mws0 hdr werrc keys].
-  split; [reflexivity|]. split; [reflexivity|]. split; [exact Hk|].
+  split; [reflexivity|]. split; [split; reflexivity|]. split; [exact Hk|].
   split; [reflexivity|]. split; [constructor|]. split; [constructor|]. exact tail_ok_nil.
 Qed.
 
